@@ -15,6 +15,7 @@ def xteaModel : CipherModel where
     else none
   debug := "XTEA { ... }"
   algName := "XTEA"
+  clonable := false
 
 def models : List CipherModel := [xteaModel]
 def specials : List Special := []
